@@ -202,6 +202,12 @@ def seeded(case):
                                          seed=seed_in, skip_shuffle=skip)
       with seams.client_datasets_rng(lambda s=None, log=log: seams.RecordingRandomState(s, log)):
         view = ds.shuffle_repeat_batch(hp)
+        if case.get('clone'):
+          # dataset, hparams and view go through copy / deepcopy / pickle before use (datasets shipped to workers)
+          import copy
+          import pickle
+          cl = {'copy': copy.copy, 'deepcopy': copy.deepcopy, 'pickle': lambda o: pickle.loads(pickle.dumps(o))}[case['clone']]
+          view = cl(cl(ds).shuffle_repeat_batch(cl(hp)))
         batches = take(view, k, want is None)
       stream = check_stream(batches, n, b, chain, hp, want, skip)
       seeds_used = [e[1] for e in log if e[0] == 'seed']
@@ -392,6 +398,15 @@ def plan(ctx):
     for skip in (False, True):
       se.append({'N': n, 'B': b, 'epochs': ep, 'steps': st, 'drop': drop, 'skip': skip, 'seeds': seeds,
                  'chain': n % 2 == 1})
+  # seeds at the limits of what RandomState accepts
+  for n, b in ((5, 2), (7, 3)):
+    se.append({'N': n, 'B': b, 'epochs': 2, 'steps': None, 'drop': False, 'skip': False, 'seeds': [0, 2 ** 31 - 1, 2 ** 31, 2 ** 32 - 1],
+               'chain': False})
+  for cln in ('copy', 'deepcopy', 'pickle'):
+    for n, b in ((5, 2), (4, 3), (1, 2)):
+      for ep, st in ((2, None), (None, 5), (1, 1)):
+        se.append({'N': n, 'B': b, 'epochs': ep, 'steps': st, 'drop': False, 'skip': False, 'seeds': seeds[:2], 'chain': False,
+                   'clone': cln})
   # NumPy-typed seeds, and dataset sizes around the 2**15 / 2**16 boundaries of narrow index types
   for stype in ('int64', 'uint32', 'int32'):
     for n, b in ((5, 2), (7, 3)):
